@@ -73,7 +73,7 @@ def combine_ints(n, which, f0, c0, f1, c1, f2, c2, f3, c3):
     vs = [_opt(f0, c0), _opt(f1, c1), _opt(f2, c2), _opt(f3, c3)][:n]
     cs = vs if which == "cpus" else [None] * n
     gs = vs if which == "gpus" else [None] * n
-    rs = [Resources(cpus=c, gpus=g, extra_args={"k": i}) for i, (c, g) in enumerate(zip(cs, gs))]
+    rs = [Resources(cpus=c, gpus=g, extra_args={"k": i, f"k{i}": i}) for i, (c, g) in enumerate(zip(cs, gs))]
     snaps = [_snap(r) for r in rs]
     out = Resources.combine_max(rs)
     for name, vals, got in (("cpus", cs, out.cpus), ("gpus", gs, out.gpus)):
